@@ -17,7 +17,7 @@ Definition enc_rec_body (r : srec) : bytes :=
   match rKind r with
   | KNil => []
   | KRaw => b0 bs
-  | KHeader => e4s vs ++ b0 bs
+  | KHeader => e4s vs ++ b0 bs ++ repeat 0 (pad4 (length (b0 bs)))   (* opaque header<>: padded to a multiple of four *)
   | KEth => e4 (v vs 0) ++ b0 bs ++ b1 bs ++ e4 (v vs 1)
   | KIPv4 | KIPv6 => e4 (v vs 0) ++ e4 (v vs 1) ++ b0 bs ++ b1 bs ++ e4s (skipn 2 vs)
   | KSwitch | KQueue | KEthCounters => e4s vs
@@ -69,7 +69,7 @@ Definition mk (fmt : N) (k : rkind) (vs : list N) (bs : list bytes) (ls : list (
 
 (* a raw header record carrying `frame` captured at `cap` bytes *)
 Definition mk_header (proto flen stripped : N) (captured : bytes) : srec :=
-  mk 1 KHeader [proto; flen; stripped; lenN captured] [captured ++ repeat 0 (pad4 (length captured))] [].
+  mk 1 KHeader [proto; flen; stripped; lenN captured] [captured] [].
 
 Definition gen_flow_record : Gen srec :=
   gdo k <- grand 14;
